@@ -3,6 +3,7 @@ package scen
 import (
 	"bytes"
 	"context"
+	"crypto/sha256"
 	"encoding/hex"
 	"encoding/json"
 	"errors"
@@ -209,8 +210,20 @@ func runC19(r *simkit.Run, c Cfg) {
 	provs := []*Ident{Identity("V1"), Identity("V2"), Identity("V3")}
 	addrPool := []string{"/ip4/8.8.8.8/tcp/3104", "/dns4/prov.example.com/tcp/443/https", "/ip6/2606:4700::1111/tcp/80/http"}
 	for i := 0; i < nm; i++ {
-		hf := []uint64{multihash.SHA2_256, multihash.SHA2_512, multihash.IDENTITY, multihash.SHA1}[tp.Choose(4, "mhfn")]
-		mh := must(multihash.Sum([]byte(fmt.Sprintf("content-%d", i)), hf, -1))
+		hf := []uint64{multihash.SHA2_256, multihash.SHA2_512, multihash.IDENTITY, multihash.SHA1, multihash.SHA3_256}[tp.Choose(5, "mhfn")]
+		var mh multihash.Multihash
+		if hf == multihash.SHA3_256 {
+			// a truncated digest (30 of 32 bytes), hex form without digit 0:
+			// read as base58 such keys happen to be well-formed multihashes
+			// of another kind
+			for k := 0; mh == nil || strings.Contains(hex.EncodeToString(mh), "0"); k++ {
+				d := sha256.Sum256([]byte(fmt.Sprintf("content-%d-%d", i, k)))
+				mh = must(multihash.Encode(d[:30], hf))
+			}
+			r.Probe("truncated-digest-hex-key-without-zero-digit")
+		} else {
+			mh = must(multihash.Sum([]byte(fmt.Sprintf("content-%d", i)), hf, -1))
+		}
 		if hf == multihash.SHA1 {
 			// a multihash whose hex form has no digit 0: every character of
 			// it is also a base58 character
